@@ -23,16 +23,16 @@ Reqs == UNION {ChanReqs(c, Contents, TRUE) : c \in ChanSet}
         \cup {[op |-> "Fulfill", h |-> h] : h \in HashSet}
         \cup {[op |-> "Tick"], [op |-> "Heartbeat"], [op |-> "Restart"]}
 
-Weight(st, r) == LET o == Step(st, r, K) IN
-                 IF o.s # st THEN (IF r.op \in {"SignCp", "ValidateHolder"} THEN 4 ELSE 40)
-                 ELSE IF o.resp.ok THEN 1 ELSE 2
-
 Init == s = InitState(ChanSet, HashSet) /\ hist = <<>> /\ w = 0
 Next == /\ Len(hist) < Depth
-        /\ \E r \in Reqs : \E k \in 1..Weight(s, r) :
-              /\ s' = Step(s, r, K).s
-              /\ hist' = Append(hist, r)
-              /\ w' = k
+        /\ \E r \in Reqs :
+              LET o == Step(s, r, K)
+                  wt == IF o.s # s THEN (IF r.op \in {"SignCp", "ValidateHolder"} THEN 4 ELSE 40)
+                        ELSE IF o.resp.ok THEN 1 ELSE 2 IN
+              \E k \in 1..wt :
+                /\ s' = o.s
+                /\ hist' = Append(hist, r)
+                /\ w' = k
 Spec == Init /\ [][Next]_<<s, hist, w>>
 
 Emit == Len(hist) = Depth =>
